@@ -195,15 +195,21 @@ class World:
 
     # -- reading sparse matrices and vectors row-wise -------------------------------------------
     def _solve_row(self, rows: Arr, P):
-        """find the index into segment `rows` whose tagged cell is P; None if absent.
-        Axes of concrete (small) length are enumerated, symbolic axes are solved."""
+        """find the index into segment `rows` whose tagged cell is P; None if absent (the last one if several positions of a
+        concrete axis carry P: a later store wins).  Axes of concrete (small) length are enumerated, symbolic axes are solved."""
+        hits = self._solve_row_all(rows, P)
+        return hits[-1] if hits else None
+
+    def _solve_row_all(self, rows: Arr, P):
+        """every index into segment `rows` whose tagged cell is P (a (row, col, value) segment written as a short literal
+        sequence may name one row several times: all of them are entries of that row)"""
         ctx = self.ctx
         if rows.ndim == 0:
             tg = self._tag(rows, ())
             for a, b in zip(tg, P):
                 if not ctx.eq(a, b):
-                    return None
-            return ()
+                    return []
+            return [()]
         import itertools
         conc_axes = []
         for j, s in enumerate(rows.shape):
@@ -214,20 +220,20 @@ class World:
                 conc_axes.append((j, n))
         if not self.symbolic:
             # fully concrete world: plain enumeration
-            hit = None
+            hits = []
             for cand in itertools.product(*[range(n) for _j, n in conc_axes]):
                 idx = tuple(Rat.const(c) for c in cand)
                 tg = self._tag(rows, idx)
                 if all(ctx.eq(a, b) for a, b in zip(tg, P)):
-                    hit = idx
-            return hit
-        hit = None
+                    hits.append(idx)
+            return hits
+        hits = []
         for cand in itertools.product(*[range(n) for _j, n in conc_axes]):
             fixed = {j: Rat.const(c) for (j, _n), c in zip(conc_axes, cand)}
             r = self._solve_row_sym(rows, P, fixed)
             if r is not None:
-                hit = r
-        return hit
+                hits.append(r)
+        return hits
 
     def _solve_row_sym(self, rows, P, fixed):
         ctx = self.ctx
@@ -283,15 +289,13 @@ class World:
         """all entries of row P: list of dict(col=tuple, val=Rat, block=.., seg=..)"""
         out = []
         for en in M.entries:
-            idx = self._solve_row(en['rows'], P)
-            if idx is None:
-                continue
-            cols = en['cols']
-            ctag = self._tag(cols, idx if cols.ndim else ())
-            v = en['vals']
-            val = v.at(idx) if v.ndim else v.at(())
-            val = val * en['sign'] * en.get('scale', ONE)
-            out.append(dict(col=tuple(ctag), val=val, block=en['block'], seg=en['seg'], origin=v.origin))
+            for idx in self._solve_row_all(en['rows'], P):
+                cols = en['cols']
+                ctag = self._tag(cols, idx if cols.ndim else ())
+                v = en['vals']
+                val = v.at(idx) if v.ndim else v.at(())
+                val = val * en['sign'] * en.get('scale', ONE)
+                out.append(dict(col=tuple(ctag), val=val, block=en['block'], seg=en['seg'], origin=v.origin))
         return out
 
     def vector_at(self, V, P):
